@@ -93,6 +93,8 @@ func init() {
 }
 
 func runC14(p *chk.Prog, r *chk.Report) {
+	// the file follows the last configuration asked for: the debouncer stores every request and arms the reload (DEBOUNCE-*, shared with C19)
+	c19Debouncer(p, r)
 	registeredRule(p, r, frrPkg)
 	routerKeyRule(p, r, frrPkg, "createConfig")
 	sessionKeyRule(p, r, frrPkg)
